@@ -448,62 +448,8 @@ func (c *ExecCtx) checkFrame(st *State, env *SpecEnv, pos token.Pos) {
 	if fs.ModifiesAll {
 		return
 	}
-	// allowed: heap name -> list of object refs
-	allowed := map[string][]*Term{}
-	allowedAll := map[string]bool{}
+	allowed, allowedAll := c.frameAllowed(env)
 	old := c.oldState
-	for _, m := range fs.Modifies {
-		env.where = m.Where
-		switch x := m.Expr.(type) {
-		case *ast.SelectorExpr:
-			if hn, _, ok := env.typeFieldHeap(x); ok {
-				allowedAll[hn] = true
-				continue
-			}
-			base := env.eval(old, old, x.X)
-			name := x.Sel.Name
-			if strings.HasPrefix(name, "ʃ") {
-				if hn, _, ok := env.ghostHeap(base, name); ok {
-					allowed[hn] = append(allowed[hn], base.T)
-				}
-				continue
-			}
-			obj, _, _ := types.LookupFieldOrMethod(base.Ty, true, env.anyPkg(base.Ty), name)
-			if f, ok := obj.(*types.Var); ok {
-				hn := u.eng.tm.HeapName(derefType(base.Ty), f.Name())
-				allowed[hn] = append(allowed[hn], base.T)
-			}
-		case *ast.Ident:
-			v := env.eval(old, old, x)
-			if v.Ty != nil {
-				if mt, ok := unalias(v.Ty).Underlying().(*types.Map); ok {
-					hn, vn, ln, _, _ := c.mapHeaps(mt)
-					for _, h := range []string{hn, vn, ln} {
-						allowed[h] = append(allowed[h], v.T)
-					}
-				}
-			}
-		case *ast.StarExpr:
-			v := env.eval(old, old, x.X)
-			if mt, ok := unalias(v.Ty).Underlying().(*types.Map); ok {
-				hn, vn, ln, _, _ := c.mapHeaps(mt)
-				for _, h := range []string{hn, vn, ln} {
-					allowed[h] = append(allowed[h], v.T)
-				}
-			}
-			if pt, ok := unalias(v.Ty).Underlying().(*types.Pointer); ok {
-				if _, stt := structOf(pt.Elem()); stt != nil {
-					for i := 0; i < stt.NumFields(); i++ {
-						hn := u.eng.tm.HeapName(pt.Elem(), stt.Field(i).Name())
-						allowed[hn] = append(allowed[hn], v.T)
-					}
-				} else {
-					hn, _ := c.cellHeap(pt.Elem())
-					allowed[hn] = append(allowed[hn], v.T)
-				}
-			}
-		}
-	}
 	var names []string
 	for h := range st.heaps {
 		names = append(names, h)
@@ -680,4 +626,97 @@ func pickPattern(body *Term, qv []*Term) *Term {
 	}
 	walk(body)
 	return best
+}
+
+
+// frameAllowed evaluates the `modifies` clause in the entry state: for each
+// heap the object references that may change, and heaps that may change anywhere.
+func (c *ExecCtx) frameAllowed(env *SpecEnv) (map[string][]*Term, map[string]bool) {
+	u := c.u
+	fs := c.spec
+	// allowed: heap name -> list of object refs
+	allowed := map[string][]*Term{}
+	allowedAll := map[string]bool{}
+	old := c.oldState
+	for _, m := range fs.Modifies {
+		env.where = m.Where
+		switch x := m.Expr.(type) {
+		case *ast.SelectorExpr:
+			if hn, _, ok := env.typeFieldHeap(x); ok {
+				allowedAll[hn] = true
+				continue
+			}
+			base := env.eval(old, old, x.X)
+			name := x.Sel.Name
+			if strings.HasPrefix(name, "ʃ") {
+				if hn, _, ok := env.ghostHeap(base, name); ok {
+					allowed[hn] = append(allowed[hn], base.T)
+				}
+				continue
+			}
+			obj, _, _ := types.LookupFieldOrMethod(base.Ty, true, env.anyPkg(base.Ty), name)
+			if f, ok := obj.(*types.Var); ok {
+				hn := u.eng.tm.HeapName(derefType(base.Ty), f.Name())
+				allowed[hn] = append(allowed[hn], base.T)
+			}
+		case *ast.Ident:
+			v := env.eval(old, old, x)
+			if v.Ty != nil {
+				if mt, ok := unalias(v.Ty).Underlying().(*types.Map); ok {
+					hn, vn, ln, _, _ := c.mapHeaps(mt)
+					for _, h := range []string{hn, vn, ln} {
+						allowed[h] = append(allowed[h], v.T)
+					}
+				}
+			}
+		case *ast.StarExpr:
+			v := env.eval(old, old, x.X)
+			if mt, ok := unalias(v.Ty).Underlying().(*types.Map); ok {
+				hn, vn, ln, _, _ := c.mapHeaps(mt)
+				for _, h := range []string{hn, vn, ln} {
+					allowed[h] = append(allowed[h], v.T)
+				}
+			}
+			if pt, ok := unalias(v.Ty).Underlying().(*types.Pointer); ok {
+				if _, stt := structOf(pt.Elem()); stt != nil {
+					for i := 0; i < stt.NumFields(); i++ {
+						hn := u.eng.tm.HeapName(pt.Elem(), stt.Field(i).Name())
+						allowed[hn] = append(allowed[hn], v.T)
+					}
+				} else {
+					hn, _ := c.cellHeap(pt.Elem())
+					allowed[hn] = append(allowed[hn], v.T)
+				}
+			}
+		}
+	}
+	return allowed, allowedAll
+}
+
+// frameFormula: every object allocated at function entry, other than those
+// `modifies` allows, has the same value in heap cur as at function entry.
+func (c *ExecCtx) frameFormula(h string, cur *Term, allowed map[string][]*Term) *Term {
+	u := c.u
+	old := c.oldState
+	init := u.initHeap[h]
+	if oh, ok := old.heaps[h]; ok {
+		init = oh
+	}
+	if init == nil || cur == init {
+		return True
+	}
+	if _, _, ok := arrayParts(cur.Sort); !ok {
+		return Eq(cur, init)
+	}
+	k, _, _ := arrayParts(cur.Sort)
+	if k != SInt {
+		return True
+	}
+	x := Sym("x!f", SInt)
+	al0 := u.heapGet(old, "$alloc", ArraySort(SInt, SBool))
+	cond := []*Term{Select(al0, x)}
+	for _, r := range allowed[h] {
+		cond = append(cond, Ne(x, r))
+	}
+	return Forall([]*Term{x}, Imp(And(cond...), Eq(Select(cur, x), Select(init, x))), []*Term{Select(cur, x)})
 }
